@@ -1,0 +1,8 @@
+//go:build verif
+
+package lexer
+
+import "ti/lexer/reader"
+
+// VerifReader exposes the rune reader cursor for conformance checks.
+func (l *Lexer) VerifReader() *reader.LexerReader { return &l.reader }
